@@ -130,6 +130,8 @@ class Analysis:
                 for q in place["p"]:
                     if isinstance(q, dict) and q.get("n") == "tol" and q.get("o") and q["o"].split("::")[-1] in TOL_OWNERS:
                         return True
+                    if isinstance(q, dict) and q.get("n") == "tol" and q.get("o") and self.field_tol(q["o"]):
+                        return True
         if not projs:
             return l in cur
         if l in cur and all(p[0] in ("dc", "f") for p in projs) and (body.lty(l) or {}).get("s") == "std::option::Option<f64>":
@@ -149,6 +151,27 @@ class Analysis:
                     if projs[0][1] < len(ops) and self.op_tol(body, ops[projs[0][1]], cur):
                         return True
         return False
+
+    def field_tol(self, owner):
+        """a private record of the library with a field `tol` (`FlashSettings { max_iter, tol, verbosity }`): the field is tolerance-valued
+        if every construction of the record in the library assigns it a tolerance-valued operand"""
+        k = ("field", owner)
+        if k in self.param_memo:
+            return self.param_memo[k]
+        self.param_memo[k] = False
+        if owner.split("::")[0] not in ("feos_core", "feos_dft", "feos"):
+            return False
+        n_sites, ok = 0, True
+        for b in self.F.bodies:
+            for bi, si, st in b.stmts():
+                rv = st["rv"]
+                if rv["k"] == "agg" and rv["kind"].get("t") == "adt" and rv["kind"].get("adt") == owner and "tol" in (rv["kind"].get("fields") or []):
+                    n_sites += 1
+                    op = rv["ops"][rv["kind"]["fields"].index("tol")]
+                    if not self.op_tol(b, op, self.tolset(b)):
+                        ok = False
+        self.param_memo[k] = bool(n_sites) and ok
+        return self.param_memo[k]
 
     def upvar_tol(self, body, idx):
         self.index()
